@@ -121,6 +121,9 @@ def _convert_always_true(_gate: gate.Gate, circuit: 'Circuit') -> None:
     new_gate_label = 'new_gate_ALWAYS_TRUE_for_' + _gate.label + uuid.uuid4().hex
     circuit.emplace_gate(new_gate_label, gate.NOT, (first_input,))
 
+    # constant may carry (ignored) operands, which it doesn't use anymore
+    for operand in _gate.operands:
+        circuit._remove_user(operand, _gate.label)
     circuit._add_user(first_input, _gate.label)
     circuit._add_user(new_gate_label, _gate.label)
 
@@ -143,6 +146,9 @@ def _convert_always_false(_gate: gate.Gate, circuit: 'Circuit') -> None:
     new_gate_label = 'new_gate_ALWAYS_FALSE_for_' + _gate.label + uuid.uuid4().hex
     circuit.emplace_gate(new_gate_label, gate.NOT, (first_input,))
 
+    # constant may carry (ignored) operands, which it doesn't use anymore
+    for operand in _gate.operands:
+        circuit._remove_user(operand, _gate.label)
     circuit._add_user(first_input, _gate.label)
     circuit._add_user(new_gate_label, _gate.label)
 
